@@ -10,7 +10,7 @@ from spec import c17_trace as CT
 SCALE = 2
 
 
-def run_manager(eng, K, T_max=None, D_max=0, lat_max=2, life_max=2, max_loss=None, configure=None, horizon_extra=400, fixed=None):
+def run_manager(eng, K, T_max=None, D_max=0, lat_max=2, life_max=2, max_loss=None, configure=None, horizon_extra=400, fixed=None, S_max=None):
     """returns dict(trace, transports, quiescent, cut, names, loop, T, D)"""
     import han.meter_connection as MC
     warnings.simplefilter("ignore")
@@ -47,7 +47,9 @@ def run_manager(eng, K, T_max=None, D_max=0, lat_max=2, life_max=2, max_loss=Non
     now_units = lambda: loop.time()
     saved = MC.__dict__.get("datetime")
     MC.datetime = CT.fake_datetime_module(now_units, SCALE)
-    T = D = None
+    T = D = S = None
+    if S_max is not None:
+        S = 1 + eng.pick(S_max)          # close() right after the S-th handle the loop runs
     if T_max is not None:
         T = param("T", 0, T_max)
         D = eng.pick(D_max + 1) if D_max else 0
@@ -75,15 +77,17 @@ def run_manager(eng, K, T_max=None, D_max=0, lat_max=2, life_max=2, max_loss=Non
         try:
             trace, transports, task, mgr = CT.drive(MC, loop, P, K, CutPath, sched, now_units, configure)
             try:
-                res = loop.run()
+                with CT.after_nth_handle(S, CT.drive.last_close) as counter:
+                    res = loop.run()
             except CutPath:
                 cut = True
+            handles = counter.count
         finally:
             asyncio.get_event_loop_policy()._local._loop = old
     finally:
         MC.datetime = saved
         asyncio.events._set_running_loop(None)
-    return dict(trace=trace, transports=transports, quiescent=(res == "quiescent") and not cut, cut=cut, names=names, loop=loop, T=T, D=D, mgr=mgr, task=task)
+    return dict(trace=trace, transports=transports, quiescent=(res == "quiescent") and not cut, cut=cut, names=names, loop=loop, T=T, D=D, S=S, handles=handles, mgr=mgr, task=task)
 
 
 def witness(r, K, extra=None):
@@ -91,6 +95,7 @@ def witness(r, K, extra=None):
     w["params"].pop("T", None)
     w["T"] = r["T"]
     w["D"] = r["D"]
+    w["S"] = r.get("S")
     if extra:
         w.update(extra)
     return w
